@@ -9,6 +9,7 @@ import (
 	"fmt"
 	"io"
 	"net/http"
+	"os"
 	"path"
 	"strings"
 	"testing"
@@ -136,6 +137,10 @@ func bodySchema(f string) M {
 		// carries (writeOnly): the first is never injected into a request, the second is
 		props["ro"] = M{"type": "string", "readOnly": true, "default": "dro"}
 		props["wo"] = M{"type": "string", "writeOnly": true, "default": "dwo"}
+	}
+	if strings.Contains(f, "u") {
+		// a list of distinct items whose item schema has a default
+		props["uq"] = M{"type": "array", "uniqueItems": true, "items": M{"type": "object", "properties": M{"k": M{"type": "integer"}, "d": M{"type": "integer", "default": 2.0}}}}
 	}
 	if strings.Contains(f, "t") {
 		// a schema the body must not match (it lacks the required member), with a default of its own:
@@ -530,7 +535,12 @@ func check(c Case) (o h.Outcome) {
 		return
 	}
 	if verr2 != nil {
-		o.Fail("revalidation-fails:"+errClass(verr2), "the forwarded request does not validate again: %v\nquery=%q headers=%q", short(verr2), q1, h1)
+		cls := errClass(verr2)
+		var sch *openapi3.SchemaError
+		if errors.As(verr2, &sch) {
+			cls += ":" + sch.SchemaField
+		}
+		o.Fail("revalidation-fails:"+cls, "the forwarded request does not validate again: %v\nquery=%q headers=%q", short(verr2), q1, h1)
 		return
 	}
 	q2, h2 := snapshot(req)
@@ -682,7 +692,7 @@ func gen(t *rapid.T) Case {
 	c.HasBody = rapid.IntRange(0, 4).Draw(t, "hasbody") > 0
 	if c.HasBody {
 		feats := ""
-		for _, f := range "pnoarxydwzt" {
+		for _, f := range "pnoarxydwztu" {
 			if rapid.IntRange(0, 2).Draw(t, "feat:"+string(f)) == 0 {
 				feats += string(f)
 			}
@@ -709,6 +719,13 @@ func gen(t *rapid.T) Case {
 				arr = append(arr, M{"r": false})
 			}
 			body["arr"] = arr
+		}
+		if strings.Contains(feats, "u") && has("bu") {
+			body["uq"] = []any{M{"k": 1.0}, M{"k": 2.0, "d": 2.0}}
+			if os.Getenv("C13_UNIQUEDEFAULTS") != "" && has("bucollide") {
+				// open finding: items that are distinct as sent and equal once the default is added
+				body["uq"] = []any{M{"k": 1.0}, M{"k": 1.0, "d": 2.0}}
+			}
 		}
 		if strings.Contains(feats, "z") && has("bz") {
 			body["alts"] = []any{M{"name": "n1"}, M{}}
